@@ -12,8 +12,17 @@ type c19ctx struct{ done chan struct{} }
 
 func (c c19ctx) Deadline() (time.Time, bool) { return time.Time{}, false }
 func (c c19ctx) Done() <-chan struct{}       { return c.done }
-func (c c19ctx) Err() error                  { return nil }
 func (c c19ctx) Value(key any) any           { return nil }
+
+// Err follows the Context contract: nil until Done is closed, non-nil afterwards.
+func (c c19ctx) Err() error {
+	select {
+	case <-c.done:
+		return context.Canceled
+	default:
+		return nil
+	}
+}
 
 var _ context.Context = c19ctx{}
 
@@ -73,8 +82,13 @@ func VHSend() {
 	if vChoose("peer", 2) == 1 {
 		vGo(func() { peerGot = append(peerGot, <-ch) })
 	}
-	if useCtx && vChoose("cancel", 2) == 1 {
-		vGo(func() { close(ctx.done) })
+	if useCtx {
+		switch vChoose("cancel", 3) {
+		case 1:
+			vGo(func() { close(ctx.done) })
+		case 2:
+			close(ctx.done) // cancelled before the call
+		}
 	}
 	returned, res := false, false
 	vGo(func() {
@@ -121,14 +135,20 @@ func VHRecv() {
 	ctx := c19ctx{make(chan struct{})}
 	timeout := vInt64("timeout")
 	peer := vChoose("peer", 3) // 0 nothing, 1 sends v, 2 closes
+	sent := false
 	switch peer {
 	case 1:
-		vGo(func() { ch <- v })
+		vGo(func() { ch <- v; sent = true })
 	case 2:
 		vGo(func() { close(ch) })
 	}
-	if useCtx && vChoose("cancel", 2) == 1 {
-		vGo(func() { close(ctx.done) })
+	if useCtx {
+		switch vChoose("cancel", 3) {
+		case 1:
+			vGo(func() { close(ctx.done) })
+		case 2:
+			close(ctx.done) // cancelled before the call: with a value ready either outcome is allowed
+		}
 	}
 	returned, ok, got := false, false, 0
 	vGo(func() {
@@ -148,6 +168,7 @@ func VHRecv() {
 		vCover("recv: blocked forever (no limit)")
 		return
 	}
+	sentBefore := sent
 	rest := c19drain(ch)
 	if ok {
 		// took exactly the head of the queue
@@ -166,6 +187,9 @@ func VHRecv() {
 			}
 		}
 		vAssert(len(rest) >= len(q), "Recv* that returns false has consumed nothing (count)")
+		if sentBefore {
+			vAssert(c19count(rest, v) == 1, "a value the peer handed over is still in the channel when Recv* returns false")
+		}
 		if !useCtx && peer != 2 {
 			vAssert(timeout > 0, "a non-positive timeout means wait without limit: RecvTimeout cannot give up on an open channel")
 		}
